@@ -170,33 +170,42 @@ public:
       }
     }
 
+    //the two extrapolated tables used for padding belong to this constructor
+    std::unique_ptr<splinetable<Alloc>> padBefore, padAfter;
+    //a constructor which throws does not run the destructor: give back
+    //whatever was allocated before passing the failure on
+    try{
+
     // add padding dimensions
     {
-      auto extrapolateSpline=[](const splinetable<Alloc>* s1, const splinetable<Alloc>* s2)->splinetable<Alloc>*{
-        splinetable<Alloc>* snew = new splinetable<Alloc>();
+      auto extrapolateSpline=[](const splinetable<Alloc>* s1, const splinetable<Alloc>* s2)->std::unique_ptr<splinetable<Alloc>>{
+        //owned from the start, so that it is cleaned up if anything below fails
+        std::unique_ptr<splinetable<Alloc>> snew(new splinetable<Alloc>());
 
         snew->ndim = s2->ndim;
 
-        snew->order = snew->allocate<uint32_t>(s2->ndim);
+        snew->order = snew->template allocate<uint32_t>(s2->ndim);
         std::copy_n(s2->order,s2->ndim,snew->order);
 
-        snew->nknots = snew->allocate<uint64_t>(s2->ndim);
+        snew->nknots = snew->template allocate<uint64_t>(s2->ndim);
         std::copy_n(s2->nknots,s2->ndim,snew->nknots);
 
-        snew->knots = snew->allocate<double_ptr>(s2->ndim);
+        snew->knots = snew->template allocate<double_ptr>(s2->ndim);
+        std::fill_n(snew->knots,s2->ndim,nullptr);
         for(unsigned int i=0; i<s2->ndim; i++){
-          snew->knots[i] = snew->allocate<double>(s2->nknots[i]+2*s2->order[i]) + s2->order[i];
+          snew->knots[i] = snew->template allocate<double>(s2->nknots[i]+2*s2->order[i]) + s2->order[i];
           std::copy_n(s2->knots[i],s2->nknots[i],snew->knots[i]);
         }
 
-        snew->naxes = snew->allocate<uint64_t>(s2->ndim);
+        snew->naxes = snew->template allocate<uint64_t>(s2->ndim);
         std::copy_n(s2->naxes,s2->ndim,snew->naxes);
 
-        snew->strides = snew->allocate<uint64_t>(s2->ndim);
+        snew->strides = snew->template allocate<uint64_t>(s2->ndim);
         std::copy_n(s2->strides,s2->ndim,snew->strides);
 
-        snew->extents = snew->allocate<double_ptr>(s2->ndim);
-        snew->extents[0] = snew->allocate<double>(2*s2->ndim);
+        snew->extents = snew->template allocate<double_ptr>(s2->ndim);
+        snew->extents[0] = nullptr;
+        snew->extents[0] = snew->template allocate<double>(2*s2->ndim);
         for(unsigned int i=0;i<s2->ndim; i++){
           snew->extents[i] = &snew->extents[0][2*i];
         }
@@ -211,7 +220,7 @@ public:
         snew->aux = NULL;
 
         unsigned long nCoeffs=snew->get_ncoeffs();
-        snew->coefficients=snew->allocate<float>(nCoeffs);
+        snew->coefficients=snew->template allocate<float>(nCoeffs);
         for(unsigned long i=0; i<nCoeffs; i++){
           auto c1=s1->get_coefficients()[i];
           auto c2=s2->get_coefficients()[i];
@@ -221,10 +230,12 @@ public:
         return(snew);
       };
 
-      tables.insert(tables.begin(),extrapolateSpline(tables[1],tables[0]));
+      padBefore=extrapolateSpline(tables[1],tables[0]);
+      tables.insert(tables.begin(),padBefore.get());
       coordinates.insert(coordinates.begin(),2*coordinates[0]-coordinates[1]);
 
-      tables.push_back(extrapolateSpline(tables[tables.size()-2],tables[tables.size()-1]));
+      padAfter=extrapolateSpline(tables[tables.size()-2],tables[tables.size()-1]);
+      tables.push_back(padAfter.get());
       coordinates.push_back(2*coordinates[coordinates.size()-1]-coordinates[coordinates.size()-2]);
     }
 
@@ -242,6 +253,7 @@ public:
     nknots[inputDim]=tables.size()+stackOrder+1;
 
     knots=allocate<double_ptr>(ndim);
+    std::fill_n(knots,ndim,nullptr);
     //copy existing knots
     for(unsigned int i=0; i<inputDim; i++){
       knots[i]=allocate<double>(nknots[i]+2*order[i]) + order[i];
@@ -291,6 +303,11 @@ public:
       arraysize *= naxes[i];
       if(i>0)
         strides[i-1] = arraysize;
+    }
+
+    }catch(...){
+      release();
+      throw;
     }
 	}
 
@@ -827,8 +844,8 @@ private:
 		}
 		if(periods)
 			deallocate(periods,ndim);
-		if(coefficients)
-			deallocate(coefficients,strides[0]*naxes[0]);
+		if(coefficients) //always allocated after naxes has been filled in
+			deallocate(coefficients,get_ncoeffs());
 		if(naxes)
 			deallocate(naxes,ndim);
 		if(strides)
